@@ -1,13 +1,18 @@
 #!/bin/sh
 # usage: seedrun.sh <patch.diff> <ID> [tier] [tail-lines]
 # applies a seeded change to /repo, runs the check, undoes it. Holds the exclusive /repo lock meanwhile
-# (checks take it shared), so concurrent checks never see a patched tree.
+# (checks take it shared), so concurrent checks never see a patched tree.  The evidence file of the
+# clean-tree run is put back afterwards (the seeded run's evidence is kept as build/seeded-evidence/<ID>.json).
 patch=$(readlink -f "$1"); id=$2; tier=${3:-quick}
-mkdir -p /verif/build
+mkdir -p /verif/build/seeded-evidence
 exec 9>/verif/build/repo.lock
 flock -x 9
 cd /repo || exit 2
 if [ -n "$(git status --short --untracked-files=no)" ]; then echo "/repo is not clean; refusing"; exit 2; fi
 git apply "$patch" || { echo "PATCH DOES NOT APPLY"; exit 2; }
-cd /verif && VERIF_REPO_LOCKED=1 python3 check.py $id --tier $tier 2>&1 | tail -${4:-8}
+cd /verif
+[ -f evidence/$id.json ] && cp evidence/$id.json build/seeded-evidence/$id.clean
+VERIF_REPO_LOCKED=1 python3 check.py $id --tier $tier 2>&1 | tail -${4:-8}
+[ -f evidence/$id.json ] && mv evidence/$id.json build/seeded-evidence/$id.json
+[ -f build/seeded-evidence/$id.clean ] && mv build/seeded-evidence/$id.clean evidence/$id.json
 git -C /repo checkout -- .
